@@ -3,19 +3,42 @@ package c30
 import (
 	"fmt"
 	"os"
-	"strings"
 	"testing"
 
 	"verif/h/ev"
 	"verif/h/sched"
 )
 
-// Exhaustive part: for each configuration below EVERY schedule is executed (depth-first
-// enumeration of the complete choice tree: at every synchronisation operation of every
+// Systematic part. For each configuration below every schedule is executed: depth-first
+// enumeration of the complete choice tree (at every synchronisation operation of every
 // thread, every enabled thread is tried as the next one to run, and every waiter as the
-// target of a Signal). The same oracle as in the random part judges each schedule.
+// target of a Signal). Configurations marked with a preemption bound K enumerate every
+// schedule with at most K preemptions instead (a preemption = taking the baton from a
+// thread that could have continued; switches at blocking points are free). The same
+// oracle as in the random part judges each schedule.
 
-func b(s string) []bool { // "pF" -> push, pushForce
+type exhCfg struct {
+	ring     *ringProg
+	wl       *wlProg
+	bound    int   // sched.Unbounded or K
+	est      int64 // measured number of schedules (for shard balancing only)
+	thorough bool  // only in the thorough tier
+}
+
+func (c exhCfg) name() string {
+	var n string
+	if c.ring != nil {
+		n = c.ring.String()
+	} else {
+		n = c.wl.String()
+	}
+	if c.bound >= 0 {
+		n += fmt.Sprintf(" (<=%d preemptions)", c.bound)
+	}
+	return n
+}
+
+func bools(s string) []bool { // "pF" -> push, pushForce
 	out := make([]bool, len(s))
 	for i, c := range s {
 		out[i] = c == 'F'
@@ -23,158 +46,143 @@ func b(s string) []bool { // "pF" -> push, pushForce
 	return out
 }
 
-func rp(maxLen int, die bool, pushers ...string) ringProg {
-	p := ringProg{MaxLen: maxLen, Die: die, WorkYields: 1}
+func rp(maxLen int, die bool, pushers ...string) *ringProg {
+	p := &ringProg{MaxLen: maxLen, Die: die, WorkYields: 1}
 	for _, s := range pushers {
-		p.Pushers = append(p.Pushers, b(s))
+		p.Pushers = append(p.Pushers, bools(s))
 	}
 	return p
 }
 
-func ringConfigs(thorough bool) []ringProg {
-	cs := []ringProg{
-		rp(0, false, "p", "p"),
-		rp(1, false, "p", "p"),
-		rp(1, false, "p", "F"),
-		rp(2, false, "p", "p"),
-		rp(0, true, "p", "p"),
-		rp(1, true, "p", "p"),
-		rp(1, true, "p", "F"),
-		rp(0, false, "pp", "p"),
-		rp(1, false, "pp", "p"),
-		rp(1, false, "pF", "p"),
-		rp(2, false, "pp", "p"),
-		rp(0, false, "p", "p", "p"),
-		rp(1, false, "p", "p", "p"),
-		rp(1, false, "p", "p", "F"),
-	}
-	if thorough {
-		cs = append(cs,
-			rp(1, true, "pp", "p"),
-			rp(2, true, "pp", "p"),
-			rp(1, false, "pp", "pp"),
-			rp(2, false, "pp", "pF"),
-			rp(0, false, "pp", "pp"),
-			rp(1, true, "p", "p", "p"),
-			rp(2, false, "p", "p", "p"),
-			rp(1, false, "pp", "p", "p"),
-		)
-	}
-	return cs
-}
-
-func wp(hardAt int, again string, signals ...int) wlProg {
-	p := wlProg{Signals: signals, HardAt: hardAt}
+func wp(hardAt int, again string, signals ...int) *wlProg {
+	p := &wlProg{Signals: signals, HardAt: hardAt}
 	for _, c := range again {
 		p.Again = append(p.Again, c == 'T')
 	}
 	return p
 }
 
-func wlConfigs(thorough bool) []wlProg {
-	cs := []wlProg{
-		wp(-1, "", 1, 1),
-		wp(-1, "T", 1, 1),
-		wp(-1, "", 2, 1),
-		wp(-1, "", 2, 2),
-		wp(-1, "T", 2, 1),
-		wp(-1, "", 1, 1, 1),
-		wp(0, "", 1, 1),
-		wp(1, "", 2, 1),
-		wp(1, "", 1, 1, 1),
+const U = sched.Unbounded
+
+func exhConfigs() []exhCfg {
+	return []exhCfg{
+		// ring, complete trees
+		{ring: rp(0, false, "p", "p"), bound: U, est: 72},
+		{ring: rp(1, false, "p", "p"), bound: U, est: 74},
+		{ring: rp(1, false, "p", "F"), bound: U, est: 74},
+		{ring: rp(2, false, "p", "p"), bound: U, est: 74},
+		{ring: rp(0, true, "p", "p"), bound: U, est: 7072},
+		{ring: rp(1, true, "p", "p"), bound: U, est: 19448},
+		{ring: rp(1, true, "p", "F"), bound: U, est: 15148},
+		{ring: rp(0, false, "pp", "p"), bound: U, est: 918},
+		{ring: rp(1, false, "pp", "p"), bound: U, est: 2210},
+		{ring: rp(1, false, "pF", "p"), bound: U, est: 1790},
+		{ring: rp(2, false, "pp", "p"), bound: U, est: 1690},
+		{ring: rp(0, false, "p", "p", "p"), bound: U, est: 15408},
+		{ring: rp(1, false, "p", "p", "p"), bound: U, est: 43638},
+		{ring: rp(1, false, "p", "p", "F"), bound: U, est: 40262},
+		{ring: rp(2, false, "p", "p", "p"), bound: U, est: 26982},
+		{ring: rp(0, false, "pp", "pp"), bound: U, est: 12596},
+		{ring: rp(2, false, "pp", "pF"), bound: U, est: 37117},
+		{ring: rp(1, false, "pp", "pp"), bound: U, est: 73684, thorough: true},
+		{ring: rp(2, false, "pp", "pp"), bound: U, est: 69352, thorough: true},
+		{ring: rp(2, true, "pp", "p"), bound: U, est: 399858, thorough: true},
+		{ring: rp(1, true, "pp", "p"), bound: U, est: 1257712, thorough: true},
+		{ring: rp(0, true, "p", "p", "p"), bound: U, est: 2644800, thorough: true},
+		{ring: rp(1, false, "pp", "p", "p"), bound: U, est: 3195826, thorough: true},
+		{ring: rp(1, true, "p", "p", "p"), bound: U, est: 26044944, thorough: true},
+		// ring, every schedule with a bounded number of preemptions
+		{ring: rp(1, false, "pp", "pp"), bound: 2, est: 2144},
+		{ring: rp(2, true, "pp", "p"), bound: 2, est: 6409},
+		{ring: rp(1, true, "pp", "p"), bound: 2, est: 21643},
+		{ring: rp(1, false, "pp", "p", "p"), bound: 2, est: 52106},
+		{ring: rp(1, true, "p", "p", "p"), bound: 2, est: 256464, thorough: true},
+		{ring: rp(2, true, "pF", "pp", "p"), bound: 2, est: 1295039, thorough: true},
+		{ring: rp(2, false, "FFFF", "FFFF", "pFp"), bound: 2, est: 465878, thorough: true}, // grows past 8 and shrinks back
+		{ring: rp(2, false, "FFFFF", "FFFF"), bound: 2, est: 20000},                        // grows past 8 and shrinks back
+		{ring: rp(1, false, "pp", "p", "p"), bound: 3, est: 237266, thorough: true},
+		{ring: rp(2, true, "pp", "p"), bound: 3, est: 29865, thorough: true},
+		// workLoop, complete trees
+		{wl: wp(-1, "", 1, 1), bound: U, est: 580},
+		{wl: wp(-1, "T", 1, 1), bound: U, est: 1344},
+		{wl: wp(0, "", 1, 1), bound: U, est: 176},
+		{wl: wp(1, "", 2, 1), bound: U, est: 120281},
+		{wl: wp(-1, "", 2, 1), bound: U, est: 411615},
+		{wl: wp(-1, "T", 2, 1), bound: U, est: 1098281, thorough: true},
+		{wl: wp(1, "", 1, 1, 1), bound: U, est: 19468080, thorough: true},
+		// workLoop, bounded preemptions
+		{wl: wp(-1, "", 2, 2), bound: 2, est: 508},
+		{wl: wp(-1, "", 1, 1, 1), bound: 2, est: 2580},
+		{wl: wp(-1, "T", 1, 1, 1), bound: 2, est: 3006},
+		{wl: wp(1, "", 1, 1, 1), bound: 2, est: 2226},
+		{wl: wp(-1, "", 2, 1, 1), bound: 2, est: 5140},
+		{wl: wp(2, "", 2, 1, 1), bound: 2, est: 4890},
+		{wl: wp(-1, "", 2, 2, 1), bound: 2, est: 8632},
+		{wl: wp(2, "TF", 3, 2, 2), bound: 2, est: 14896},
+		{wl: wp(-1, "", 1, 1, 1), bound: 3, est: 14334},
+		{wl: wp(-1, "", 2, 2), bound: 3, est: 3196},
+		{wl: wp(-1, "TT", 2, 2), bound: 3, est: 4366},
+		{wl: wp(-1, "", 2, 1, 1), bound: 3, est: 41528, thorough: true},
+		{wl: wp(-1, "", 2, 2, 1), bound: 3, est: 91578, thorough: true},
+		{wl: wp(2, "TF", 3, 2, 2), bound: 3, est: 216540, thorough: true},
+		{wl: wp(-1, "", 3, 2), bound: 3, est: 5471},
+		{wl: wp(-1, "", 1, 1, 1), bound: 4, est: 100000, thorough: true},
+		{wl: wp(-1, "", 2, 2), bound: 4, est: 30000, thorough: true},
 	}
-	if thorough {
-		cs = append(cs,
-			wp(-1, "TT", 2, 2),
-			wp(-1, "T", 1, 1, 1),
-			wp(-1, "", 2, 1, 1),
-			wp(-1, "", 3, 2),
-			wp(1, "T", 2, 2),
-			wp(2, "", 2, 1, 1),
-			wp(-1, "", 2, 2, 1),
-		)
-	}
-	return cs
 }
 
 var exh struct {
-	states, transitions, schedules, configs, deadlocks int64
+	states, transitions, schedules, complete, bounded, deadlocks int64
 }
 
 func publish() {
 	ev.Extra("states", exh.states)
 	ev.Extra("transitions", exh.transitions)
 	ev.Extra("traces_validated_against_impl", exh.schedules)
-	ev.Extra("schedules_exhaustive", exh.schedules)
-	ev.Extra("exhaustive_configurations_completed", exh.configs)
+	ev.Extra("schedules_enumerated", exh.schedules)
+	ev.Extra("configurations_enumerated_completely", exh.complete)
+	ev.Extra("configurations_enumerated_up_to_a_preemption_bound", exh.bounded)
 	ev.Extra("deadlocks_found", exh.deadlocks)
 }
 
-func skipReplay(t *testing.T) {
+func TestExhaustive(t *testing.T) {
 	if os.Getenv("VERIF_REPLAY") != "" {
 		t.Skip("replay run")
 	}
-}
-
-func TestRingExhaustive(t *testing.T) {
-	skipReplay(t)
-	shard, n := ev.Shard()
-	for i, p := range ringConfigs(ev.Thorough()) {
-		if i%n != shard {
+	var cfgs []exhCfg
+	var est []int64
+	for _, c := range exhConfigs() {
+		if c.thorough && !ev.Thorough() {
 			continue
 		}
-		p := p
-		var last *sched.Result
-		var sampled bool
-		st, bad := sched.Exhaust(0, func(choose func(int) int) *sched.Result {
-			res, in := runRing(p, choose)
-			nt := ringNontrivial(res, in)
-			ev.Case(p.String()+"|"+res.ChoiceString(), nt)
-			ringClasses(p, res, in)
-			if nt && !sampled && res.Preemptions >= 2 {
-				sampled = true
-				ev.SampleIf(func() any { return mkSample(p, p.String(), res, "exhaustive") })
-			}
-			last = res
-			return res
-		})
-		_ = last
-		exh.states += st.States
-		exh.transitions += st.Transitions
-		exh.schedules += st.Schedules
-		exh.deadlocks += st.Deadlocks
-		ev.ClassN("schedules:exhaustive", st.Schedules)
-		if bad != nil {
-			publish()
-			report(t, bad, p.String(), replayFile{Kind: "ring", Ring: &p}, true)
-		}
-		if !st.Complete {
-			t.Fatalf("VERIF-INFRA: enumeration of %s did not complete", p)
-		}
-		exh.configs++
-		ev.Extra("exhaustive: "+p.String(), st.Schedules)
-		publish()
-		t.Logf("%s: %d schedules, %d states, depth %d", p, st.Schedules, st.States, st.MaxDepth)
+		cfgs = append(cfgs, c)
+		est = append(est, c.est)
 	}
-}
-
-func TestWorkLoopExhaustive(t *testing.T) {
-	skipReplay(t)
 	shard, n := ev.Shard()
-	for i, p := range wlConfigs(ev.Thorough()) {
-		if (i+3)%n != shard { // offset so that ring and workLoop configurations spread over the shards
-			continue
-		}
-		p := p
-		var sampled bool
+	publish()
+	for _, i := range sched.Assign(est, shard, n) {
+		c := cfgs[i]
+		cfg := sched.Config{MaxPreemptions: c.bound}
+		name := c.name()
+		sampled := false
 		st, bad := sched.Exhaust(0, func(choose func(int) int) *sched.Result {
-			res, in := runWL(p, choose)
-			nt := wlNontrivial(res, in)
-			ev.Case(p.String()+"|"+res.ChoiceString(), nt)
-			wlClasses(p, res, in)
+			var res *sched.Result
+			var nt bool
+			if c.ring != nil {
+				var in ringInfo
+				res, in = runRing(cfg, *c.ring, choose)
+				nt = ringNontrivial(res, in)
+				ringClasses(*c.ring, res, in)
+			} else {
+				var in wlInfo
+				res, in = runWL(cfg, *c.wl, choose)
+				nt = wlNontrivial(res, in)
+				wlClasses(*c.wl, res, in)
+			}
+			ev.Case(name+"|"+res.ChoiceString(), nt)
 			if nt && !sampled && res.Preemptions >= 2 {
 				sampled = true
-				ev.SampleIf(func() any { return mkSample(p, p.String(), res, "exhaustive") })
+				ev.SampleIf(func() any { return mkSample(progOf(c), name, res, "enumerated") })
 			}
 			return res
 		})
@@ -182,20 +190,32 @@ func TestWorkLoopExhaustive(t *testing.T) {
 		exh.transitions += st.Transitions
 		exh.schedules += st.Schedules
 		exh.deadlocks += st.Deadlocks
-		ev.ClassN("schedules:exhaustive", st.Schedules)
+		ev.ClassN("schedules:enumerated", st.Schedules)
 		if bad != nil {
 			publish()
-			report(t, bad, p.String(), replayFile{Kind: "workloop", WL: &p}, true)
+			rf := replayFile{Kind: "ring", Ring: c.ring, MaxPre: c.bound}
+			if c.wl != nil {
+				rf = replayFile{Kind: "workloop", WL: c.wl, MaxPre: c.bound}
+			}
+			report(t, bad, name, rf, true)
 		}
 		if !st.Complete {
-			t.Fatalf("VERIF-INFRA: enumeration of %s did not complete", p)
+			t.Fatalf("VERIF-INFRA: enumeration of %s did not complete", name)
 		}
-		exh.configs++
-		ev.Extra("exhaustive: "+p.String(), st.Schedules)
+		if c.bound < 0 {
+			exh.complete++
+		} else {
+			exh.bounded++
+		}
+		ev.Extra("enumerated: "+name, st.Schedules)
 		publish()
-		t.Logf("%s: %d schedules, %d states, depth %d", p, st.Schedules, st.States, st.MaxDepth)
+		t.Logf("%s: %d schedules, %d states, depth %d", name, st.Schedules, st.States, st.MaxDepth)
 	}
 }
 
-var _ = fmt.Sprint
-var _ = strings.Contains
+func progOf(c exhCfg) any {
+	if c.ring != nil {
+		return c.ring
+	}
+	return c.wl
+}
